@@ -119,11 +119,13 @@ def line_of(src, pos):
     return src.count('\n', 0, pos) + 1
 
 
-def slice_source(src, keep, cuts=None, protos=True):
+def slice_source(src, keep, cuts=None, protos=True, stubs=None):
     """keep: list of names; 'name' keeps every overload, 'name#k' the k-th (1-based) definition.
     cuts: {name: {'marker': regex, 'replace': text}}.
     returns (text, report)"""
     cuts = cuts or {}
+    stubs = stubs or {}
+    stubbed = []
     fs = functions(src)
     want_all = set(k for k in keep if '#' not in k)
     want_nth = {}
@@ -163,7 +165,11 @@ def slice_source(src, keep, cuts=None, protos=True):
         else:
             nl = src.count('\n', a, b)
             head = blank_comments(src)[a:bo]
-            if protos and re.match(r'\s*(static|inline)\b', head) and '::' not in head.split('(')[0]:
+            if name in stubs:
+                # dropped function replaced in place by a stated stub body (needed for file-static callees)
+                out.append(re.sub(r'\s+', ' ', head).strip() + ' ' + stubs[name].replace('\n', ' ') + '\n' * nl)
+                stubbed.append({'function': name, 'lines': [line_of(src, a), line_of(src, b)], 'stub': stubs[name]})
+            elif protos and re.match(r'\s*(static|inline)\b', head) and '::' not in head.split('(')[0]:
                 proto = re.sub(r'\s+', ' ', head).strip() + ';'
                 out.append(proto + '\n' * nl)
             else:
@@ -176,7 +182,10 @@ def slice_source(src, keep, cuts=None, protos=True):
     for c in cuts:
         if c not in [x['function'] for x in cutrep]:
             raise SliceError("cut for %s did not fire" % c)
-    return ''.join(out), {'kept': kept, 'cuts': cutrep, 'functions_in_file': len(fs)}
+    for st in stubs:
+        if st not in [x['function'] for x in stubbed]:
+            raise SliceError("stub for %s did not fire" % st)
+    return ''.join(out), {'kept': kept, 'cuts': cutrep, 'stubbed': stubbed, 'functions_in_file': len(fs)}
 
 
 if __name__ == '__main__':
